@@ -26,7 +26,7 @@ from .common import Infra
 warnings.simplefilter('ignore')
 
 KIND = {bool: 'b', int: 'i', float: 'f', complex: 'c'}
-INT_SENTINEL = 0x3b3b3b3b
+INT_SENTINEL = -0x3b3b3b3b     # negative: a garbage value used as a length fails fast instead of allocating gigabytes
 
 
 # ======================================================================================= capture of scripts
@@ -42,8 +42,13 @@ class _Sentinel:
     def __getattr__(self, name):
         v = getattr(self._mod, name)
         if name in self._names:
-            def alloc(*a, **kw):
-                arr = v(*a, **kw)
+            def alloc(shape, *a, **kw):
+                n = 1
+                for k in (shape if isinstance(shape, (tuple, list)) else (shape,)):
+                    n *= max(int(k), 0)
+                if n > 5_000_000:
+                    raise MemoryError('generated script allocates an array of %d entries' % n)
+                arr = v(shape, *a, **kw)
                 k = arr.dtype.kind
                 if arr.size:
                     arr.fill(numpy.nan if k in 'fc' else True if k == 'b' else INT_SENTINEL)
@@ -57,12 +62,14 @@ class Capture:
 
     def __init__(self, sentinel=True):
         self.scripts = []
+        self.globals = []
         self.sentinel = sentinel
 
     def __enter__(self):
         self._orig = _util.function
         def function(script, globals={}):
             self.scripts.append(script)
+            self.globals.append(dict(globals))
             g = dict(globals)
             if self.sentinel:
                 if 'numpy' in g: g['numpy'] = _Sentinel(g['numpy'], ('empty',))
@@ -95,7 +102,7 @@ BASE = Config(False, False, False, False, 1)
 
 def run_config(funcs, args_list, cfg, timeout=30):
     """compile `funcs` (array or nested tuple) with the real compile() and call it on every args of args_list.
-    returns (kind, values, scripts): kind 'ok' -> values = list of results; 'exception'/'hang' -> values = exc"""
+    returns (kind, values, scripts, globals): kind 'ok' -> values = list of results; 'exception'/'hang' -> values = exc"""
     import treelog
     with Capture() as cap:
         def go():
@@ -103,7 +110,7 @@ def run_config(funcs, args_list, cfg, timeout=30):
                 f = ev.compile(funcs, stats=cfg.stats, cache_const_intermediates=cfg.cache, _simplify=cfg.simplify, _optimize=cfg.optimize)
                 return [f(a) for a in args_list]
         kind, val = X.guarded(go, timeout)
-    return kind, val, cap.scripts
+    return kind, val, cap.scripts, cap.globals
 
 
 # ======================================================================================= comparison with the spec
@@ -137,6 +144,9 @@ def compare_with_spec(funcs, lean_results, value):
         if v.dtype.kind != KIND[e.dtype]:
             bad.append('dtype[%d]:%s' % (i, v.dtype))
             continue
+        if e.dtype == bool and 'data' in res:
+            # the specification evaluator computes Add / Sum of booleans numerically; a boolean array denotes the truth values
+            res = dict(res, data=['0' if k == '0' else '1' for k in res['data']])
         m = X.compare_result(res, v)
         if m not in ('exact', 'close'):
             bad.append('%s[%d]' % (m, i))
@@ -175,6 +185,7 @@ class Hits:
 
     def __init__(self):
         self.n = collections.Counter()
+        self.blockof = []      # (block ids of the dependencies, block id) for every get_block_id computation
         self._saved = []
 
     def _patch(self, obj, name, new):
@@ -225,6 +236,26 @@ class Hits:
             hits['Add._compile:inplace' if inplace else 'Add._compile:plain'] += 1
             return orig_add(self, builder)
         self._patch(ev.Add, '_compile', add_compile)
+        orig_dl = ev._define_loop_block_structure
+        def define_loops(targets):
+            res = orig_dl(targets)
+            loops = ev.util.IDSet()
+            for t in res: loops |= t._loops
+            ids = [l.loop_id for l in loops]
+            if len(set(ids)) < len(ids): hits['loops:merged-same-id'] += 1
+            if any(isinstance(l, ev.LoopConcatenate) and not l.func.shape[-1].isconstant for l in loops): hits['loops:dependent-shape'] += 1
+            return res
+        self._saved.append((ev, '_define_loop_block_structure', orig_dl))
+        ev._define_loop_block_structure = define_loops
+        orig_gbi = B.__dict__['get_block_id']
+        blockof = self.blockof
+        def get_block_id(self, evaluable):
+            fresh = self._evaluable_block_ids.get(evaluable) is None
+            bid = orig_gbi(self, evaluable)
+            if fresh and evaluable.dependencies and len(blockof) < 200000:
+                blockof.append((tuple(tuple(self._evaluable_block_ids[d]) for d in evaluable.dependencies), tuple(bid)))
+            return bid
+        self._patch(B, 'get_block_id', get_block_id)
         orig_gb = B.__dict__['get_block_for_evaluable']
         def get_block_for_evaluable(self, evaluable, *, block_id=None, comment=''):
             bid = self.get_block_id(evaluable) if block_id is None else block_id
@@ -307,6 +338,7 @@ def catalogue(rng, dtype=float):
     allocation inside/outside loops, statement placement in inner/outer loop blocks, adjacent/nested/merged loops,
     loop-dependent shapes, tuples sharing subterms and loops."""
     progs = {}
+    build_errors = catalogue.build_errors = []
     # Inflate / LoopSum do not exist for bool: only the programs that are well-typed are built
     bool_ok = ('add-plain', 'diagonalize-argument', 'concat-const-chunk', 'concat-chunk2', 'concat-diagonalize', 'concat-variable-chunk',
                'concat-variable-chunk-2d', 'concat-zero-trip', 'add-concat-inplace', 'concat-of-concat-result', 'concat-nested-variable')
@@ -317,8 +349,9 @@ def catalogue(rng, dtype=float):
             b = Builder(rng)
             try:
                 funcs = f(b)
-            except Exception as e:   # a catalogue entry that cannot be built is a harness problem
-                raise Infra('catalogue entry %s cannot be built: %r' % (name, e))
+            except Exception as e:   # constructing the tree already runs real code (constant lengths are evaluated): an outcome, not a crash
+                build_errors.append((name, e))
+                return f
             progs[name] = (funcs, b.args)
             return f
         return deco
@@ -476,6 +509,11 @@ def catalogue(rng, dtype=float):
     def _(b):
         i = b.loop(2)
         return ev.loop_concatenate(Tr(Add(Infl(row(A(b, 2, 2, 2), i), b.idx(2, 3), 3), A(b, 2, 3)), 1, 0), i)
+    @prog('concat-inflate')          # with _optimize: Assemble in mode 'assign' through the slice view
+    def _(b):
+        i = b.loop(2); return ev.loop_concatenate(Infl(row(A(b, 2, 2, 2), i), b.idx(2, 3), 3), i)
+    @prog('diagonalize-inflate')
+    def _(b): return ev.Diagonalize(Infl(A(b, 2, 2), b.idx(2, 3), 3))
     @prog('concat-diagonalize')
     def _(b):
         i = b.loop(2); return ev.loop_concatenate(ev.Diagonalize(row(A(b, 2, 2), i)), i)
@@ -540,3 +578,1219 @@ def catalogue(rng, dtype=float):
         body = ev.Inflate(row(A(b, 2, 3), i), b.idx(2, 2), n)                  # (n,) allocated per i
         return ev.loop_concatenate(Add(body, ev.InsertAxis(A(b), n)), i)
     return progs
+
+
+# ======================================================================================= X-script: script -> statement language
+
+class Untranslatable(Exception):
+    pass
+
+
+def _names(node):
+    return sorted({n.id for n in ast.walk(node) if isinstance(n, ast.Name)}) if node is not None else []
+
+
+def _is_attr_chain(node, *chain):
+    """node == chain[0].chain[1]...."""
+    for attr in reversed(chain[1:]):
+        if not (isinstance(node, ast.Attribute) and node.attr == attr):
+            return False
+        node = node.value
+    return isinstance(node, ast.Name) and node.id == chain[0]
+
+
+def view_of(node):
+    """target expression -> (base variable, sig (components nearest to the base first), names read by the view)"""
+    if isinstance(node, ast.Name):
+        return node.id, [], []
+    if isinstance(node, ast.Call) and _is_attr_chain(node.func, 'numpy', 'transpose') and len(node.args) == 2 and not node.keywords:
+        base, sig, reads = view_of(node.args[0])
+        return base, sig, reads
+    if isinstance(node, ast.Call) and _is_attr_chain(node.func, 'numpy', 'einsum') and len(node.args) == 2 and isinstance(node.args[0], ast.Constant) and node.args[0].value == '...ii->...i':
+        base, sig, reads = view_of(node.args[1])
+        return base, sig + ['diag'], reads
+    if isinstance(node, ast.Subscript) and isinstance(node.slice, ast.Tuple) and len(node.slice.elts) == 2 and isinstance(node.slice.elts[0], ast.Constant) and node.slice.elts[0].value is Ellipsis:
+        sl = node.slice.elts[1]
+        if isinstance(sl, ast.Call) and isinstance(sl.func, ast.Name) and sl.func.id == 'slice' and len(sl.args) == 2:
+            base, sig, reads = view_of(node.value)
+            return base, sig + ['slice(%s)' % ', '.join(ast.unparse(a) for a in sl.args)], reads + [n for n in _names(sl) if n != 'slice']
+    raise Untranslatable('target expression %s' % ast.unparse(node))
+
+
+def transposes_of(node):
+    """the axes of the numpy.transpose calls of a target expression, outermost call first"""
+    out = []
+    while not isinstance(node, ast.Name):
+        if isinstance(node, ast.Call) and _is_attr_chain(node.func, 'numpy', 'transpose'):
+            out.append(tuple(ast.literal_eval(node.args[1]))); node = node.args[0]
+        elif isinstance(node, ast.Call):
+            node = node.args[1]
+        elif isinstance(node, ast.Subscript):
+            node = node.value
+        else:
+            raise Untranslatable('target expression')
+    return out
+
+
+def _only_uses(stmts):
+    """reads of a block that consists of raise / plain expression statements only"""
+    reads = []
+    for s in stmts:
+        if isinstance(s, ast.Raise):
+            reads += _names(s.exc)
+        elif isinstance(s, ast.Expr) and isinstance(s.value, ast.Call) and _is_attr_chain(s.value.func, 'warnings', 'warn'):
+            reads += _names(s.value)
+        elif isinstance(s, ast.Pass):
+            pass
+        else:
+            raise Untranslatable('statement in a conditional: ' + ast.unparse(s)[:80])
+    return reads
+
+
+def translate_block(stmts, info):
+    out = []
+    i = 0
+    while i < len(stmts):
+        s = stmts[i]; i += 1
+        if isinstance(s, ast.Assign):
+            if len(s.targets) != 1 or not isinstance(s.targets[0], ast.Name):
+                raise Untranslatable('assignment target ' + ast.unparse(s)[:80])
+            x = s.targets[0].id
+            v = s.value
+            if isinstance(v, ast.Call) and (_is_attr_chain(v.func, 'numpy', 'empty') or _is_attr_chain(v.func, 'parallel', 'shempty')):
+                out.append(['alloc', x, _names(v)])
+            else:
+                out.append(['assign', x, _names(v)])
+        elif isinstance(s, ast.Expr):
+            v = s.value
+            if not isinstance(v, ast.Call):
+                raise Untranslatable('expression statement ' + ast.unparse(s)[:80])
+            f = v.func
+            if isinstance(f, ast.Attribute) and f.attr == 'fill' and len(v.args) == 1 and isinstance(v.args[0], ast.Constant) and v.args[0].value == 0 and not v.keywords:
+                base, sig, reads = view_of(f.value)
+                if reads: out.append(['use', reads])
+                out.append(['fill', base, sig])
+            elif _is_attr_chain(f, 'numpy', 'copyto') and len(v.args) == 2 and not v.keywords:
+                base, sig, reads = view_of(v.args[0])
+                out.append(['write', base, sig, sorted(set(reads + _names(v.args[1])))])
+            elif (_is_attr_chain(f, 'numpy', 'add') or _is_attr_chain(f, 'numpy', 'multiply')) and len(v.args) == 2 and [k.arg for k in v.keywords] == ['out']:
+                if ast.unparse(v.args[0]) != ast.unparse(v.keywords[0].value):
+                    raise Untranslatable('in-place operation with different operand and out: ' + ast.unparse(s)[:80])
+                base, sig, reads = view_of(v.args[0])
+                out.append(['accum', base, sig, sorted(set(reads + _names(v.args[1])))])
+            elif _is_attr_chain(f, 'numpy', 'add', 'at') and len(v.args) == 3 and not v.keywords:
+                base, sig, reads = view_of(v.args[0])
+                out.append(['accum', base, sig, sorted(set(reads + _names(v.args[1]) + _names(v.args[2])))])
+                info['add_at'].append(v)
+            elif isinstance(f, ast.Attribute) and f.attr == 'setflags':
+                out.append(['use', _names(v)])
+            elif isinstance(f, ast.Name) and f.id == 'log_stats' or _is_attr_chain(f, 'warnings', 'warn'):
+                out.append(['use', _names(v)])
+            else:
+                raise Untranslatable('call statement ' + ast.unparse(s)[:80])
+        elif isinstance(s, ast.If):
+            if isinstance(s.test, ast.Name) and s.test.id == 'first_run':
+                raise Untranslatable('first_run conditional without global statement')
+            if s.orelse:
+                raise Untranslatable('conditional with else branch')
+            out.append(['use', sorted(set(_names(s.test) + _only_uses(s.body)))])
+        elif isinstance(s, ast.Global):
+            cached = [n for n in s.names if n != 'first_run']
+            if 'first_run' not in s.names or i >= len(stmts) or not (isinstance(stmts[i], ast.If) and isinstance(stmts[i].test, ast.Name) and stmts[i].test.id == 'first_run'):
+                raise Untranslatable('global statement not followed by the first_run conditional')
+            cond = stmts[i]; i += 1
+            info['rerun'] = True
+            again_info = dict(info, loops=[], add_at=[])     # the loops of the rerun branch are those of the first branch (filtered)
+            out.append(['rerun', cached, translate_block(cond.body, info), translate_block(cond.orelse, again_info)])
+            info['rerun_loops'] = again_info['loops']
+        elif isinstance(s, ast.With):
+            if len(s.items) != 1:
+                raise Untranslatable('with statement with several items')
+            item = s.items[0]
+            reads = _names(item.context_expr)
+            ctx = item.context_expr
+            loopname = None
+            if isinstance(ctx, ast.Call) and ctx.args and isinstance(ctx.args[0], ast.Constant) and isinstance(ctx.args[0].value, str) and ctx.args[0].value.startswith('loop '):
+                loopname = tuple(int(k) for k in ctx.args[0].value[5:].split(','))
+                info['parallel'] = info['parallel'] or _is_attr_chain(ctx.func, 'parallel', 'ctxrange')
+            if item.optional_vars is not None:
+                if not isinstance(item.optional_vars, ast.Name):
+                    raise Untranslatable('with … as <non-variable>')
+                out.append(['assign', item.optional_vars.id, reads])
+            else:
+                out.append(['use', reads])
+            if loopname is not None:
+                if not (len(s.body) == 1 and isinstance(s.body[0], ast.For)):
+                    raise Untranslatable('loop context without for statement')
+                info['loops'].append(loopname)
+            out += translate_block(s.body, info)
+        elif isinstance(s, ast.For):
+            it = s.iter
+            if not (isinstance(s.target, ast.Name) and not s.orelse and isinstance(it, ast.Call) and isinstance(it.func, ast.Name) and it.func.id == 'map'
+                    and len(it.args) == 2 and _is_attr_chain(it.args[0], 'numpy', 'int_')):
+                raise Untranslatable('for statement ' + ast.unparse(s)[:60])
+            out.append(['loop', s.target.id, _names(it), translate_block(s.body, info)])
+        elif isinstance(s, ast.Return):
+            out.append(['use', _names(s.value)])
+        elif isinstance(s, (ast.Assert, ast.Raise)):
+            out.append(['use', _names(s)])
+        elif isinstance(s, ast.Pass):
+            pass
+        else:
+            raise Untranslatable(type(s).__name__)
+    return out
+
+
+def translate_script(script, global_names):
+    """-> (request object for the C02 driver, info)"""
+    import builtins
+    tree = ast.parse(script)
+    if not (len(tree.body) == 1 and isinstance(tree.body[0], ast.FunctionDef) and [a.arg for a in tree.body[0].args.args] == ['a']):
+        raise Untranslatable('script is not a single function of one argument')
+    info = dict(loops=[], add_at=[], rerun=False, parallel=False)
+    prog = translate_block(tree.body[0].body, info)
+    used = set()
+    def collect(p):
+        for st in p:
+            for part in st[1:]:
+                if isinstance(part, list):
+                    if part and isinstance(part[0], list): collect(part)
+                    else: used.update(x for x in part if isinstance(x, str))
+    collect(prog)
+    glob = sorted((set(global_names) | {'a'} | (used & set(dir(builtins)))) - {'first_run'}) + ['first_run']
+    return dict(script=dict(globals=glob, prog=prog)), info
+
+
+# ======================================================================================= Lean helpers
+
+def model_parallel(c, reqs, driver, nproc=3):
+    """c.model on several driver processes at once (the requests are independent)"""
+    reqs = list(reqs)
+    if len(reqs) < 2 * nproc:
+        return c.model(reqs, driver=driver)
+    chunks = [reqs[i::nproc] for i in range(nproc)]
+    out = [None] * nproc
+    err = []
+    def work(i):
+        try:
+            out[i] = c.model(chunks[i], driver=driver)
+        except BaseException as e:
+            err.append(e)
+    threads = [threading.Thread(target=work, args=(i,)) for i in range(nproc)]
+    for t in threads: t.start()
+    for t in threads: t.join()
+    if err:
+        raise err[0]
+    res = [None] * len(reqs)
+    for i in range(nproc):
+        res[i::nproc] = out[i]
+    return res
+
+
+def lean_eval(c, items):
+    """items: list of (flat list of arrays, args) -> list of per-root result lists (or None when not serialisable)"""
+    reqs, pos = [], []
+    for k, (flat, args) in enumerate(items):
+        try:
+            r, _ = ser.request(flat, args)
+        except ValueError:
+            continue
+        reqs.append(r); pos.append(k)
+    ans = model_parallel(c, reqs, 'Expr')
+    out = [None] * len(items)
+    for k, a in zip(pos, ans):
+        if a.startswith('bad-request'):
+            raise Infra('Expr driver rejected a request: ' + a[:300])
+        out[k] = json.loads(a)['results']
+    return out
+
+
+def second_args(args):
+    """different values of the same shapes, dtypes and value sets per argument (keeps index arguments in bounds)"""
+    out = {}
+    for k, v in args.items():
+        v = numpy.asarray(v)
+        w = v.reshape(-1)[::-1].reshape(v.shape).copy()
+        if v.dtype.kind == 'f':
+            w = -w + .25
+        out[k] = w
+    return out
+
+
+# ======================================================================================= M-eval
+
+def random_programs(rng, n, maxdepth):
+    """random DAGs, half of them restricted to the vocabulary of the in-place protocol and the loops; single arrays and
+    nested tuples whose members share subterms and loops (same generator pool)"""
+    progs = []
+    inplace = ['Add', 'Inflate', 'Transpose', 'Diagonalize', 'LoopSum', 'LoopConcatenate', 'InsertAxis', 'Take', 'Multiply', 'Sum', 'TakeDiag']
+    for k in range(n):
+        focused = rng.random() < .5
+        g = genexpr.Gen(rng, allow=inplace if focused else None, share=.35 if focused else .25)
+        try:
+            T = rng.choice([float, float, int, bool] if not focused else [float, float, int])
+            nd = rng.choice([0, 1, 1, 2, 2, 3])
+            shape = tuple(rng.choice([1, 2, 2, 3, 3, 0]) for _ in range(nd))
+            ntup = rng.choice([1, 1, 2, 3])
+            es = [g.array(T if i == 0 else rng.choice([T, float]), shape if i == 0 or rng.random() < .6 else tuple(rng.choice([1, 2, 3]) for _ in range(rng.choice([0, 1, 2]))), rng.randint(1, maxdepth)) for i in range(ntup)]
+        except Exception:
+            continue
+        if ntup == 1:
+            funcs = es[0]
+        elif ntup == 2:
+            funcs = (es[0], es[1]) if rng.random() < .5 else (es[0], (es[1],))
+        else:
+            funcs = rng.choice([(es[0], es[1], es[2]), ((es[0], es[1]), es[2]), (es[0], (es[1], (es[2], es[0])))])
+        progs.append(('random-%s%d' % ('inplace-' if focused else '', k), funcs, g.args, g.hits))
+    return progs
+
+
+def flags_of(cfg):
+    fl = [n for n, on in (('simplify', cfg.simplify), ('optimize', cfg.optimize), ('cache', cfg.cache), ('stats-log', cfg.stats == 'log'), ('stats-none', cfg.stats is None), ('maxprocs2', cfg.maxprocs == 2)) if on]
+    return fl
+
+
+def single_flag_configs():
+    return {'simplify': BASE._replace(simplify=True), 'optimize': BASE._replace(optimize=True), 'cache': BASE._replace(cache=True),
+            'stats-log': BASE._replace(stats='log'), 'stats-none': BASE._replace(stats=None), 'maxprocs2': BASE._replace(maxprocs=2)}
+
+
+def has_separated_assemble(funcs, simplify):
+    """does the optimised form contain an Assemble whose advanced (non-Range) indices are separated by a Range?"""
+    _, flat = flatten(funcs)
+    try:
+        for e in flat:
+            s = e.simplified if simplify else e
+            o = s._optimized_for_numpy1 if hasattr(s, '_optimized_for_numpy1') else s.optimized_for_numpy
+            for n in shrink.all_nodes(o):
+                if isinstance(n, ev.Assemble):
+                    adv = [k for k, ix in enumerate(n.indices) if not isinstance(ix, ev.Range)]
+                    if adv and adv[-1] - adv[0] != len(adv) - 1 and any(n.indices[k].ndim for k in adv):
+                        return True
+    except Exception:
+        pass
+    return False
+
+
+def evaluate_program(funcs, args_list, cfg, lean):
+    """-> (verdict, detail): 'ok' | 'mismatch' | 'raises' ; lean: per args a list of Lean results (flat)"""
+    kind, val, scripts, _ = run_config(funcs, args_list, cfg)
+    if kind != 'ok':
+        return 'raises', '%s: %s' % (type(val).__name__, str(val)[:200]), scripts
+    for k, (v, res) in enumerate(zip(val, lean)):
+        bad = compare_with_spec(funcs, res, v)
+        if bad:
+            return 'mismatch', 'call %d: %s' % (k, ','.join(bad)), scripts
+    return 'ok', '', scripts
+
+
+def signature_for(c, name, funcs, args_list, cfg, verdict, detail, lean):
+    """root-cause signature + minimal replay for a failing (program, configuration)"""
+    # which flags are needed?
+    needed = []
+    base_ok = evaluate_program(funcs, args_list, BASE, lean)[0] == 'ok'
+    if not base_ok:
+        cfgclass = 'base'
+        failing = BASE
+    else:
+        for flag, cf in single_flag_configs().items():
+            if flag in flags_of(cfg) and evaluate_program(funcs, args_list, cf, lean)[0] != 'ok':
+                needed.append(flag)
+        cfgclass = '+'.join(needed) if needed else cfg_name(cfg)
+        failing = cfg if not needed else single_flag_configs()[needed[0]]
+    fmt, flat = flatten(funcs)
+    small, sargs = funcs, args_list[0]
+    skeleton = '+'.join(sorted({x for e in flat for x in shrink.skeleton(e).split('+') if x}))
+    if len(flat) >= 1 and base_ok:
+        # shrink every member on its own with the cheap oracle "differs from the un-optimised un-simplified compile"
+        def fails(e2, a2):
+            k1, v1, _, _ = run_config(e2, [a2], BASE, timeout=10)
+            k2, v2, _, _ = run_config(e2, [a2], failing, timeout=10)
+            if k1 != 'ok':
+                return False
+            if k2 != 'ok':
+                return verdict == 'raises'
+            a, b = numpy.asarray(v1[0]), numpy.asarray(v2[0])
+            return a.shape != b.shape or a.dtype.kind != b.dtype.kind or not numpy.allclose(a, b, rtol=1e-9, atol=1e-11, equal_nan=True)
+        for e in flat:
+            try:
+                if fails(e, args_list[0]):
+                    small, sargs = shrink.shrink(e, args_list[0], fails, budget=50)
+                    skeleton = shrink.skeleton(small)
+                    break
+            except Exception:
+                continue
+    if 'optimize' in cfgclass.split('+') or (not base_ok and False):
+        if has_separated_assemble(small, failing.simplify):
+            skeleton = 'Assemble-inplace-separated-advanced-indices'
+    head = 'compile-wrong-value' if verdict == 'mismatch' else 'compile-raises'
+    return '%s:%s:%s' % (head, cfgclass, skeleton), small, sargs, failing
+
+
+def describe_funcs(funcs, args):
+    fmt, flat = flatten(funcs)
+    return dict(structure=repr(fmt), trees=[X.describe(e, {})['tree'] for e in flat], arguments={k: numpy.asarray(v).tolist() for k, v in args.items()})
+
+
+# ======================================================================================= V-opt: the numpy-optimisation pass
+
+def opt_pass(e):
+    """the whole-tree pass that compile(_optimize=True) applies (property name differs between revisions)"""
+    for name in ('_optimized_for_numpy1', 'optimized_for_numpy'):
+        if hasattr(type(e), name):
+            return getattr(e, name) if name == '_optimized_for_numpy1' else None
+    return None
+
+
+def apply_opt(e):
+    if hasattr(type(e), '_optimized_for_numpy1'):
+        return e._optimized_for_numpy1
+    # older spelling: optimized_for_numpy == simplified + pass; only usable on simplified trees
+    return e.optimized_for_numpy
+
+
+def rule_instances(rng):
+    """one or more minimal instances per `_optimized_for_numpy` rule on opaque Arguments: (rule, node, args, must_fire)"""
+    out = []
+    def add(rule, f, must_fire=True):
+        b = Builder(rng)
+        out.append((rule, f(b), b.args, must_fire))
+    c = ev.constant
+    unif = lambda val, *shape: functools_reduce_insert(ev.constant(val), shape)
+    add('Transpose:fold-transpose', lambda b: Tr(Tr(b.arg(2, 3, 2), 1, 2, 0), 0, 2, 1))
+    add('Transpose:fold-transpose-to-identity', lambda b: Tr(Tr(b.arg(2, 3), 1, 0), 1, 0))
+    add('Transpose:fold-assemble', lambda b: Tr(ev.Assemble(b.arg(2, 3), (ev.Range(c(2)), b.idx(3, 4)), (c(2), c(4))), 1, 0))
+    add('Transpose:fold-assemble-2d-index', lambda b: Tr(ev.Assemble(b.arg(2, 2, 2), (ev.Range(c(2)), ev.Constant(types.arraydata(numpy.array([[0, 2], [1, 2]])))), (c(2), c(3))), 1, 0))
+    add('Multiply:negative', lambda b: Mul(b.arg(2, 3), unif(-1., 2, 3)))
+    add('Multiply:negative-int', lambda b: Mul(b.arg(3, dtype=int), unif(-1, 3)))
+    add('Multiply:absolute', lambda b: (lambda a: Mul(a, ev.Sign(a)))(b.arg(2, 3)))
+    add('Multiply:absolute-of-three', lambda b: (lambda a, d: Mul(Mul(a, d), ev.Sign(a)))(b.arg(3), b.arg(3)))
+    add('Multiply:einsum', lambda b: Mul(b.arg(2, 3), b.arg(2, 3)))
+    add('Multiply:einsum-int', lambda b: Mul(b.arg(3, dtype=int), b.arg(3, dtype=int)))
+    add('Multiply:bool-declines', lambda b: Mul(b.arg(3, dtype=bool), b.arg(3, dtype=bool)), False)
+    add('Multiply:scalar-declines', lambda b: Mul(b.arg(), b.arg()), False)
+    add('Einsum:absorb-transpose', lambda b: ev.Einsum((Tr(b.arg(3, 2), 1, 0), b.arg(2, 3)), ((0, 1), (0, 1)), (0, 1)))
+    add('Einsum:absorb-transpose-3d', lambda b: ev.Einsum((Tr(b.arg(3, 2, 2), 2, 0, 1), b.arg(2, 3, 2)), ((0, 1, 2), (0, 1, 2)), (0, 1, 2)))
+    add('Einsum:absorb-transpose-second', lambda b: ev.Einsum((b.arg(2, 3), Tr(b.arg(3, 2), 1, 0)), ((0, 1), (0, 1)), (1, 0)))
+    add('Einsum:absorb-insertaxis', lambda b: ev.Einsum((Ins(b.arg(2), 3), b.arg(2, 3)), ((0, 1), (0, 1)), (0, 1)))
+    add('Einsum:insertaxis-not-shared-declines', lambda b: ev.Einsum((Ins(b.arg(2), 3),), ((0, 1),), (0, 1)), False)
+    add('Sum:einsum', lambda b: ev.Sum(ev.Einsum((b.arg(2, 3), b.arg(2, 3)), ((0, 1), (0, 1)), (0, 1))))
+    add('Sum:einsum-through-transpose', lambda b: ev.Sum(Tr(ev.Einsum((b.arg(2, 3, 2), b.arg(2, 3, 2)), ((0, 1, 2), (0, 1, 2)), (0, 1, 2)), 2, 0, 1)))
+    add('Sum:no-einsum-declines', lambda b: ev.Sum(b.arg(2, 3)), False)
+    add('TakeDiag:einsum', lambda b: ev.TakeDiag(ev.Einsum((b.arg(2, 3, 3), b.arg(2, 3, 3)), ((0, 1, 2), (0, 1, 2)), (0, 1, 2))))
+    add('TakeDiag:einsum-through-transpose', lambda b: ev.TakeDiag(Tr(ev.Einsum((b.arg(3, 2, 3), b.arg(3, 2, 3)), ((0, 1, 2), (0, 1, 2)), (0, 1, 2)), 1, 0, 2)))
+    add('Take:get', lambda b: ev.Take(b.arg(2, 3), c(1)))
+    add('Take:slice-range', lambda b: ev.Take(b.arg(2, 3), ev.Range(c(2))))
+    add('Take:slice-range-offset', lambda b: ev.Take(b.arg(2, 4), Add(ev.Range(c(2)), Ins(c(1), 2))))
+    add('Take:slice-offset-first', lambda b: ev.Take(b.arg(2, 4), Add(Ins(c(2), 2), ev.Range(c(2)))))
+    add('Take:slice-argument-offset', lambda b: ev.Take(b.arg(5), Add(ev.Range(c(2)), Ins(ev.InRange(b.arg(dtype=int, lo=0, hi=3), c(4)), 2))))
+    add('Take:general-declines', lambda b: ev.Take(b.arg(2, 3), b.idx(2, 3)), False)
+    add('Power:reciprocal', lambda b: ev.Power(Add(ev.Absolute(b.arg(2, 3)), unif(1., 2, 3)), unif(-1., 2, 3)))
+    add('Power:reciprocal-square', lambda b: ev.Power(Add(ev.Absolute(b.arg(3)), unif(.5, 3)), unif(-2., 3)))
+    add('Power:other-declines', lambda b: ev.Power(Add(ev.Absolute(b.arg(3)), unif(.5, 3)), unif(3., 3)), False)
+    add('Inflate:assemble', lambda b: Infl(b.arg(2, 3), b.idx(3, 4), 4))
+    add('Inflate:assemble-2d-dofmap', lambda b: Infl(b.arg(2, 2, 2), ev.Constant(types.arraydata(numpy.array([[0, 2], [1, 2]]))), 3))
+    add('Inflate:assemble-0d-dofmap', lambda b: Infl(b.arg(2), c(1), 3))
+    add('Assemble:merge', lambda b: ev.Assemble(ev.Assemble(b.arg(2, 3), (ev.Range(c(2)), b.idx(3, 4)), (c(2), c(4))), (b.idx(2, 3), ev.Range(c(4))), (c(3), c(4))))
+    add('Assemble:merge-inner-first-axis', lambda b: ev.Assemble(ev.Assemble(b.arg(2, 3), (b.idx(2, 3), ev.Range(c(3))), (c(3), c(3))), (ev.Range(c(3)), b.idx(3, 4)), (c(3), c(4))))
+    add('Assemble:merge-0d', lambda b: ev.Assemble(ev.Assemble(b.arg(2, 3), (ev.Range(c(2)), b.idx(3, 4)), (c(2), c(4))), (ev.Range(c(2)), ev.Range(c(4)), c(1)), (c(2), c(4), c(2))))
+    add('Assemble:merge-conflict-declines', lambda b: ev.Assemble(ev.Assemble(b.arg(2, 3), (ev.Range(c(2)), b.idx(3, 4)), (c(2), c(4))), (ev.Range(c(2)), b.perm(4)), (c(2), c(4))), False)
+    return out
+
+
+def functools_reduce_insert(e, shape):
+    for n in shape:
+        e = ev.InsertAxis(e, ev.constant(n))
+    return e
+
+
+def vopt_requests(pairs):
+    """pairs: list of (original, rewritten, args) -> requests (concrete, symbolic) per pair, or None when not serialisable"""
+    reqs, index = [], []
+    for k, (e, o, args) in enumerate(pairs):
+        float_args = {n: v for n, v in args.items() if numpy.asarray(v).dtype.kind == 'f'}
+        try:
+            r1, _ = ser.request([e, o], args, cmp=[(0, 1)])
+            r2, _ = ser.request([e, o], {n: v for n, v in args.items() if n not in float_args}, symbolic={n: numpy.asarray(v).shape for n, v in float_args.items()}, cmp=[(0, 1)])
+        except ValueError:
+            continue
+        reqs += [r1, r2]; index.append(k)
+    return reqs, index
+
+
+# ======================================================================================= M-core: compileCore vs real scripts
+
+class CoreGen:
+    """random programs of the sub-language {leaf, Add, Inflate, Transpose, LoopSum} as real nutils trees, together with
+    their `E` terms for the Lean model, the set of shared nodes (ndependents > 1, counted on the DAG built here) and the
+    set of nodes that `compile_with_out` must refuse because they live in an earlier block than the out array
+    (computed from loop dependence only, independently of the real block ids)."""
+
+    def __init__(self, rng):
+        self.rng = rng
+        self.b = Builder(rng)
+        self.nleaf = itertools.count()
+        self.ntag = itertools.count()
+        self.leaf_name = {}      # leaf id -> argument name
+        self.transp_inv = {}     # tag -> inverse axes (what the in-place path prints)
+        self.transp_axes = {}    # tag -> axes (what the plain path prints)
+        self.scatter_const = {}  # tag -> name of the constant that holds the dofmap (table)
+        self.pool = []           # (shape, loops, node) for sharing
+        self.parents = collections.Counter()
+        self.nested_used = {}
+        self.loop_parent = {}
+        self.tag_of = {}
+
+    def gen(self, shape, loops, depth):
+        """-> node = dict(e=real tree, j=E json, deps=frozenset of loop names, kind=...)"""
+        rng = self.rng
+        cands = [n for s, l, n in self.pool if s == shape and l == tuple(i for i, _ in loops)]
+        if cands and rng.random() < .2:
+            return rng.choice(cands)
+        can_loop = len(loops) == 0 or (len(loops) == 1 and not self.nested_used.get(id(loops[0][0])))
+        kinds = ['leaf'] if depth <= 0 else rng.choice([['leaf'], ['add'], ['add'], ['scatter'], ['transp'] if len(shape) >= 2 else ['add'], ['loopsum'] if can_loop else ['add']])
+        kind = kinds[0]
+        if kind == 'leaf':
+            k = next(self.nleaf)
+            dep = [l for l in loops if rng.random() < .7]
+            e = self.b.arg(*shape, *[n for _, n in dep])
+            self.leaf_name[k] = e.name
+            for idx, _ in reversed(dep):
+                e = ev.Take(e, idx)
+            node = dict(e=e, j=['leaf', k, 1], deps=frozenset(id(i) for i, _ in dep), kind='leaf', ch=[])
+        elif kind == 'add':
+            a = self.gen(shape, loops, depth-1); b = self.gen(shape, loops, depth-1)
+            if a is b:
+                b = self.gen(shape, loops, 0)
+            node = dict(e=Add(a['e'], b['e']), j=self.add_json(a['j'], b['j']), deps=a['deps'] | b['deps'], kind='add', ch=[a, b])
+        elif kind == 'scatter':
+            m = rng.choice([1, 2, 3])
+            n = shape[-1] if shape else 1
+            if not shape or n == 0:
+                return self.gen(shape, loops, 0)
+            f = self.gen(shape[:-1] + (m,), loops, depth-1)
+            dep = [l for l in loops if rng.random() < .4][:1]
+            if dep:
+                table = numpy.array([[rng.randrange(n) for _ in range(dep[0][1])] for _ in range(m)])
+                dofmap = ev.Take(ev.Constant(types.arraydata(table)), dep[0][0])
+            else:
+                table = numpy.array([rng.randrange(n) for _ in range(m)])
+                dofmap = ev.Constant(types.arraydata(table))
+            # equal index maps are equal nodes in nutils: same tag
+            t = self.tag_of.setdefault(('scatter', table.shape, table.tobytes(), id(dep[0][0]) if dep else None, n), None)
+            if t is None:
+                t = self.tag_of[('scatter', table.shape, table.tobytes(), id(dep[0][0]) if dep else None, n)] = next(self.ntag)
+            self.scatter_const[t] = 'c' + types.nutils_hash(table).hex()
+            node = dict(e=Infl(f['e'], dofmap, n), j=['scatter', t, 1, f['j']], deps=f['deps'] | frozenset(id(i) for i, _ in dep), kind='scatter', ch=[f])
+        elif kind == 'transp':
+            axes = list(range(len(shape)))
+            while axes == list(range(len(shape))):
+                rng.shuffle(axes)
+            src = [None] * len(shape)
+            for i, a in enumerate(axes):
+                src[a] = shape[i]
+            f = self.gen(tuple(src), loops, depth-1)
+            t = self.tag_of.get(('transp', tuple(axes)))
+            if t is None:
+                t = self.tag_of[('transp', tuple(axes))] = next(self.ntag)
+            self.transp_axes[t] = tuple(axes)
+            self.transp_inv[t] = tuple(int(i) for i in numpy.argsort(axes))
+            node = dict(e=Tr(f['e'], *axes), j=['transp', t, f['j']], deps=f['deps'], kind='transp', ch=[f])
+        else:
+            n = rng.choice([1, 2, 3])
+            idx = self.b.loop(n)
+            if loops:
+                self.nested_used[id(loops[0][0])] = True     # at most one loop nested in a loop body
+                self.loop_parent[id(idx)] = id(loops[-1][0])
+            loops2 = loops + [(idx, n)]
+            # one leaf of the body depends on the new index and on all enclosing ones (the loop is really nested)
+            body = self.gen(shape, loops2, depth-1)
+            k = next(self.nleaf)
+            la = self.b.arg(*shape, *[m for _, m in loops2])
+            self.leaf_name[k] = la.name
+            le = la
+            for i2, _ in reversed(loops2):
+                le = ev.Take(le, i2)
+            dl = dict(e=le, j=['leaf', k, 1], deps=frozenset(id(i2) for i2, _ in loops2), kind='leaf', ch=[], loops=[id(i2) for i2, _ in loops2], hasloop=frozenset())
+            body = dict(e=Add(body['e'], dl['e']), j=self.add_json(body['j'], dl['j']), deps=body['deps'] | dl['deps'], kind='add', ch=[body, dl],
+                        loops=[id(i2) for i2, _ in loops2], hasloop=body['hasloop'])
+            node = dict(e=ev.loop_sum(body['e'], idx), j=['loopsum', n, body['j']], deps=body['deps'] - {id(idx)}, kind='loopsum', ch=[body], idx=id(idx))
+        node['loops'] = [id(i) for i, _ in loops]
+        # the loops (by index id) whose results this node depends on
+        node['hasloop'] = frozenset().union(*[ch['hasloop'] for ch in node['ch']]) | (frozenset([node['idx']]) if node['kind'] == 'loopsum' else frozenset())
+        self.pool.append((shape, tuple(i for i, _ in loops), node))
+        return node
+
+    @staticmethod
+    def add_json(x, y):
+        """Add is commutative in nutils (frozenmultiset): Add(a, b) and Add(b, a) are the same node"""
+        return ['add'] + sorted([x, y], key=json.dumps)
+
+    @staticmethod
+    def key(n):
+        return json.dumps(n['j'])
+
+    def count_dependents(self, root):
+        """ndependents as compile() counts them: every distinct node contributes one per occurrence among its dependencies"""
+        nd, seen = collections.Counter(), set()
+        def walk(n):
+            if self.key(n) in seen: return
+            seen.add(self.key(n))
+            for ch in n['ch']:
+                nd[self.key(ch)] += 1
+                walk(ch)
+        walk(root)
+        return nd
+
+    def gates(self, root):
+        """(shared, early) lists of E json, by the rules of compile_with_out expressed through loop dependence.
+        Position of the out array: ('start', L) = initialised at the start of the body of loop L (None: top level; own arrays
+        of Add / Inflate / LoopSum); ('body', i, after) = the accumulation statement of LoopSum i, which sits after the loop
+        nested in the body of i when there is one (`after`)."""
+        shared, early, seen = [], [], set()
+        nd = self.count_dependents(root)
+        def is_shared(n): return nd[self.key(n)] > 1
+        def innermost(n):
+            own = [l for l in n['loops'] if l in n['deps']]
+            return own[-1] if own else None
+        def nested_in(n, i):
+            """does n depend on the result of a loop that is nested in loop i?"""
+            return any(True for l in n['hasloop'] if l != i and self.loop_parent.get(l) == i)
+        def refused(n, pos):
+            if pos[0] == 'start':
+                return pos[1] is not None and pos[1] not in n['deps']
+            _, i, after = pos
+            if i not in n['deps']:
+                return True
+            if after and not nested_in(n, i):
+                return True
+            if after and n['kind'] == 'loopsum':
+                return True          # LoopSum._compile_with_out answers NotImplemented: its loop body precedes the out block
+            return False
+        def cwo(n, pos):
+            if is_shared(n) and n['j'] not in shared: shared.append(n['j'])
+            r = refused(n, pos)
+            if r and n['j'] not in early: early.append(n['j'])
+            if is_shared(n) or r or n['kind'] == 'leaf':
+                comp(n); return
+            self_(n, pos)
+        def self_(n, pos):
+            if n['kind'] == 'add':
+                for ch in n['ch']: cwo(ch, pos)
+            elif n['kind'] == 'transp':
+                cwo(n['ch'][0], pos)
+            elif n['kind'] == 'scatter':
+                comp(n['ch'][0])
+            elif n['kind'] == 'loopsum':
+                body = n['ch'][0]
+                cwo(body, ('body', n['idx'], nested_in(body, n['idx'])))
+        def comp(n):
+            if self.key(n) in seen: return
+            seen.add(self.key(n))
+            if is_shared(n) and n['j'] not in shared: shared.append(n['j'])
+            if n['kind'] == 'leaf': return
+            if n['kind'] == 'transp': comp(n['ch'][0]); return
+            if n['kind'] == 'add' and not any(not is_shared(ch) and ch['kind'] != 'leaf' for ch in n['ch']):
+                for ch in n['ch']: comp(ch)
+                return
+            self_(n, ('start', innermost(n)))
+        comp(root)
+        return shared, early
+
+
+def _common_prefix(paths):
+    """number of enclosing loops shared by all statements that touch an accumulator (where the array is allocated — hoisted
+    or not — is irrelevant)"""
+    if not paths:
+        return 0
+    n = 0
+    while all(len(p) > n for p in paths) and len({p[n] for p in paths}) == 1:
+        n += 1
+    return n
+
+
+def _canon_ops(ops):
+    """canonical order of the operations on one accumulator: zero / copy keep their place; between them the order of the
+    accumulating operations is irrelevant (accumulate_order_independent) and loops of equal length are fused (nutils gives
+    independent loops of equal length the same loop id)"""
+    def canon_run(run):
+        loops, rest = {}, []
+        for op in run:
+            if op[0] == 'loop':
+                loops.setdefault(op[1], []).extend(op[2])
+            else:
+                rest.append(op)
+        rest += [('loop', n, tuple(_canon_ops(body))) for n, body in loops.items()]
+        return sorted(rest, key=repr)
+    out, run = [], []
+    for op in ops:
+        if op[0] in ('zero', 'copyTo'):
+            out += canon_run(run); run = []
+            out.append(op)
+        else:
+            run.append(op)
+    return out + canon_run(run)
+
+
+def model_trace(stmts, result, gen):
+    """canonical description of what the Lean model's script computes into `result`"""
+    defs, accs = {}, {}
+    def walk(ss, path):
+        for s in ss:
+            if s[0] == 'alloc': accs[s[1]] = []
+            elif s[0] == 'leafv': defs[s[1]] = ('leaf', gen.leaf_name[s[2]])
+            elif s[0] == 'plus': defs[s[1]] = ('plus', s[2], s[3])
+            elif s[0] == 'reindex': defs[s[1]] = ('transpose', gen.transp_axes[s[2]], s[3])
+            elif s[0] in ('zero', 'addAt', 'copyTo'): accs[s[1]].append((path, s))
+            elif s[0] == 'loop': walk(s[2], path + ((s[1], id(s)),))
+    walk(stmts, ())
+    def desc(x):
+        if x in accs:
+            return ('acc', nest(accs[x]))
+        d = defs[x]
+        if d[0] == 'leaf': return d
+        if d[0] == 'plus': return ('plus', tuple(sorted([desc(d[1]), desc(d[2])], key=repr)))
+        return ('transpose', d[1], desc(d[2]))
+    def nest(entries, depth=None):
+        if depth is None:
+            depth = _common_prefix([p for p, _ in entries])
+        ops, i = [], 0
+        while i < len(entries):
+            path, s = entries[i]
+            if len(path) > depth:
+                j = i
+                while j < len(entries) and len(entries[j][0]) > depth and entries[j][0][depth] == path[depth]: j += 1
+                ops.append(('loop', path[depth][0], nest(entries[i:j], depth+1))); i = j
+            else:
+                view = tuple(gen.transp_inv[t] for t in s[2])
+                if s[0] == 'zero': ops.append(('zero', view))
+                elif s[0] == 'addAt': ops.append(('addAt', view, None if s[3] is None else gen.scatter_const[s[3]], desc(s[4])))
+                else: ops.append(('copyTo', view, desc(s[3])))
+                i += 1
+        return tuple(_canon_ops(ops))
+    return desc(result)
+
+
+def script_trace(script, gvals):
+    """the same canonical description, read off a real generated script (no first_run branch)"""
+    tree = ast.parse(script).body[0]
+    defs, accs = {}, {}
+    ret = []
+    def const_names(node):
+        return [n.id for n in ast.walk(node) if isinstance(n, ast.Name) and re.fullmatch(r'c[0-9a-f]{40}', n.id)]
+    def walk(ss, path):
+        for s in ss:
+            if isinstance(s, ast.Assign) and isinstance(s.targets[0], ast.Name):
+                x, v = s.targets[0].id, s.value
+                if isinstance(v, ast.Call) and (_is_attr_chain(v.func, 'numpy', 'empty') or _is_attr_chain(v.func, 'parallel', 'shempty')):
+                    accs[x] = []
+                elif x not in _names(v):      # `v = numpy.asarray(v, dtype=…)` keeps the first definition
+                    defs[x] = v
+            elif isinstance(s, ast.Expr) and isinstance(s.value, ast.Call):
+                v = s.value; f = v.func
+                if isinstance(f, ast.Attribute) and f.attr == 'fill':
+                    base, sig, _ = view_of(f.value)
+                    accs[base].append((path, ('zero', tuple(transposes_of(f.value)), tuple(sig))))
+                elif _is_attr_chain(f, 'numpy', 'copyto'):
+                    base, sig, _ = view_of(v.args[0])
+                    accs[base].append((path, ('copyTo', tuple(transposes_of(v.args[0])), tuple(sig), v.args[1])))
+                elif _is_attr_chain(f, 'numpy', 'add') and v.keywords:
+                    base, sig, _ = view_of(v.args[0])
+                    accs[base].append((path, ('addAt', tuple(transposes_of(v.args[0])), tuple(sig), None, v.args[1])))
+                elif _is_attr_chain(f, 'numpy', 'add', 'at'):
+                    base, sig, _ = view_of(v.args[0])
+                    accs[base].append((path, ('addAt', tuple(transposes_of(v.args[0])), tuple(sig), v.args[1], v.args[2])))
+            elif isinstance(s, ast.With):
+                ctx = s.items[0].context_expr
+                if s.items[0].optional_vars is not None:
+                    defs[s.items[0].optional_vars.id] = ctx
+                walk(s.body, path)
+            elif isinstance(s, ast.For):
+                rng_var = s.iter.args[1].id
+                ctx = defs[rng_var]
+                cn = const_names(ctx)
+                length = int(gvals[cn[0]]) if cn else None
+                walk(s.body, path + ((length, id(s), s.target.id),))
+            elif isinstance(s, ast.Return):
+                ret.append(s.value)
+    walk(tree.body, ())
+    def resolve_const(node):
+        """name of the (table) constant an index expression is built from"""
+        while True:
+            if isinstance(node, ast.Name) and node.id in defs:
+                node = defs[node.id]; continue
+            cn = const_names(node)
+            if cn: return cn[0]
+            names = [n for n in _names(node) if n in defs]
+            if not names: return ast.unparse(node)
+            node = defs[names[0]]
+    def desc(node):
+        if isinstance(node, ast.Name):
+            if node.id in accs:
+                return ('acc', nest(accs[node.id]))
+            if node.id in defs:
+                return desc(defs[node.id])
+            return ('?', node.id)
+        if isinstance(node, ast.Call) and _is_attr_chain(node.func, 'numpy', 'asarray'):
+            if isinstance(node.args[0], ast.Subscript) and isinstance(node.args[0].value, ast.Name) and node.args[0].value.id == 'a':
+                return ('leaf', node.args[0].slice.value)
+            return desc(node.args[0])
+        if isinstance(node, ast.Call) and _is_attr_chain(node.func, 'numpy', 'take'):
+            return desc(node.args[0])
+        if isinstance(node, ast.Subscript):       # _Get / take along the last axis: a loop dependent leaf
+            return desc(node.value)
+        if isinstance(node, ast.BinOp) and isinstance(node.op, ast.Add):
+            return ('plus', tuple(sorted([desc(node.left), desc(node.right)], key=repr)))
+        if isinstance(node, ast.Call) and _is_attr_chain(node.func, 'numpy', 'transpose'):
+            return ('transpose', tuple(ast.literal_eval(node.args[1])), desc(node.args[0]))
+        return ('?', ast.unparse(node)[:60])
+    def nest(entries, depth=None):
+        if depth is None:
+            depth = _common_prefix([tuple(q[1] for q in p) for p, _ in entries])
+        ops, i = [], 0
+        while i < len(entries):
+            path, s = entries[i]
+            if len(path) > depth:
+                j = i
+                while j < len(entries) and len(entries[j][0]) > depth and entries[j][0][depth][1] == path[depth][1]: j += 1
+                ops.append(('loop', path[depth][0], nest(entries[i:j], depth+1))); i = j
+            else:
+                if s[2]:
+                    ops.append(('?region', s[2]))
+                elif s[0] == 'zero': ops.append(('zero', s[1]))
+                elif s[0] == 'addAt':
+                    idx = None
+                    if s[3] is not None:
+                        last = s[3].elts[-1]
+                        idx = resolve_const(last)
+                    ops.append(('addAt', s[1], idx, desc(s[4])))
+                else: ops.append(('copyTo', s[1], desc(s[3])))
+                i += 1
+        return tuple(_canon_ops(ops))
+    if len(ret) != 1:
+        raise Untranslatable('return')
+    return desc(ret[0])
+
+
+# ======================================================================================= deterministic stream: in-place Assemble
+
+def assemble_stream(c, counts):
+    """every tuple of index kinds (Range / 0-d / 1-d / 2-d, up to 4 indices) through the in-place path `Add(Assemble, g)`,
+    compared with the definition of Assemble computed with Python ints.  (Regression stream of the pinned-tree defect
+    'advanced indices separated by a slice'.)"""
+    rng = numpy.random.default_rng(c.seed)
+    bad = []
+    nd = {'R': 1, '0': 0, '1': 1, '2': 2}
+    for n in range(1, 5):
+        for combo in itertools.product('R012', repeat=n):
+            if combo.count('2') > 1 or sum(nd[k] for k in combo) > 4:
+                continue
+            shape, indices, fshape, ivals = [], [], [], []
+            for k in combo:
+                L = int(rng.integers(2, 4))
+                shape.append(L)
+                if k == 'R':
+                    indices.append(ev.Range(ev.constant(L))); fshape.append(L); ivals.append(numpy.arange(L))
+                elif k == '0':
+                    v = numpy.array(int(rng.integers(0, L))); indices.append(ev.constant(int(v))); ivals.append(v)
+                elif k == '1':
+                    m = int(rng.integers(2, 4)); v = rng.integers(0, L, (m,)); indices.append(ev.Constant(types.arraydata(v))); fshape.append(m); ivals.append(v)
+                else:
+                    v = rng.integers(0, L, (2, 3)); indices.append(ev.Constant(types.arraydata(v))); fshape += [2, 3]; ivals.append(v)
+            f = ev.Argument('f', tuple(map(ev.constant, fshape)), float)
+            g = ev.Argument('g', tuple(map(ev.constant, shape)), float)
+            F = rng.integers(-4, 5, fshape).astype(float); G = rng.integers(-4, 5, shape).astype(float)
+            e = Add(ev.Assemble(f, tuple(indices), tuple(map(ev.constant, shape))), g)
+            # the definition: out[i0[..], i1[..], …] += f[all index positions], in exact integer arithmetic
+            expect = G.astype(int).astype(object).copy()
+            offs = numpy.cumsum([0] + [iv.ndim for iv in ivals])
+            for pos in itertools.product(*[range(k) for k in fshape]):
+                tgt = tuple(int(iv[pos[o:o+iv.ndim]]) for iv, o in zip(ivals, offs))
+                expect[tgt] += int(F[pos])
+            kind, val, scripts, _ = run_config(e, [dict(f=F, g=G)], BASE, timeout=10)
+            c.case(('assemble-stream', combo)); counts['assemble-stream'] += 1
+            ok = kind == 'ok' and numpy.asarray(val[0]).shape == tuple(shape) and (numpy.asarray(val[0]) == expect.astype(float)).all()
+            if not ok:
+                bad.append((combo, kind, e, dict(f=F, g=G), scripts[-1] if scripts else None, repr(val)[:200]))
+    return bad
+
+
+# ======================================================================================= the check
+
+Program = collections.namedtuple('Program', 'name funcs args args2')
+
+
+def choose_configs(c, prog_has_loop, budget_parallel):
+    serial = [cf for cf in all_configs() if cf.maxprocs == 1]
+    default = Config(True, True, True, None, 1)
+    if c.tier == 'thorough':
+        chosen = list(serial)
+    else:
+        others = [cf for cf in serial if cf not in (BASE, default)]
+        chosen = [BASE, default] + c.rng.sample(others, 3)
+    if prog_has_loop and budget_parallel[0] > 0:
+        budget_parallel[0] -= 1
+        par = [cf for cf in all_configs() if cf.maxprocs == 2]
+        chosen += c.rng.sample(par, 2 if c.tier == 'thorough' else 1)
+    return chosen
+
+
+def has_loop(funcs):
+    _, flat = flatten(funcs)
+    return any(e._loops for e in flat)
+
+
+def run(c):
+    c.rule = ('programs = (a) a catalogue of ~130 hand-enumerated program shapes (float/int/bool) that force every branch of the in-place protocol, '
+              '(b) random well-typed DAGs from nvh.genexpr (half restricted to the in-place/loop vocabulary), single arrays and nested tuples sharing subterms and loops, '
+              '(c) random tree/DAG programs of the verified sub-language; each is compiled by the real evaluable.compile under sampled (quick) or all (thorough) configurations '
+              'and compared exactly with the Lean specification evaluator on the un-simplified tree; a case = (program, configuration), distinct by program hash and configuration; '
+              'non-trivial when the program compiles to at least one in-place statement or loop')
+    c.assumptions += [
+        'complex dtype is not generated',
+        'values are dyadic so float arithmetic is exact for +,-,*; results involving division/transcendentals are compared with rtol 1e-11 (counted as "close")',
+        'numpy.empty is replaced by a sentinel-filled allocation inside the generated function only (harness process), so unwritten cells are visible; NumPy itself is trusted',
+        'the script checker tracks initialisation per region of an array under the tiling assumption stated in Model/C02.lean (validated dynamically by the sentinel)',
+        'maxprocs=2 is compared for its result only (fork based); scheduling is the subject of C16',
+        'compileCore (verified model) covers {leaf, Add, Inflate/Assemble, Transpose, LoopSum} without statement hoisting; its tie to the real scripts is a comparison of accumulator traces',
+        'Lean evaluator parametricity (symbolic "same" => equal for all real arguments) relies on Props/Poly']
+    broken = c.build_and_audit()
+    quick = c.tier == 'quick'
+    counts = collections.Counter()
+    hits = Hits()
+    hits.__enter__()
+    try:
+        _run(c, quick, counts, hits, broken)
+    finally:
+        hits.__exit__()
+
+
+def compare_run(funcs, kind, val, lean):
+    if kind != 'ok':
+        return 'raises', '%s: %s' % (type(val).__name__, str(val)[:200])
+    for k, (v, res) in enumerate(zip(val, lean)):
+        bad = compare_with_spec(funcs, res, v)
+        if bad:
+            return 'mismatch', 'call %d: %s' % (k, ','.join(bad))
+    return 'ok', ''
+
+
+def _run(c, quick, counts, hits, broken):
+    rng = c.rng
+    # =============================================================== phase A: the real code (no Lean)
+    # ---- 0. deterministic Assemble stream
+    bad = assemble_stream(c, counts)
+    for combo, kind, e, args, script, got in bad[:1]:
+        c.failing_input('compile-wrong-value:optimize:Assemble-inplace-separated-advanced-indices' if kind == 'ok' else 'compile-raises:optimize:Assemble-inplace-separated-advanced-indices',
+                        'in-place Assemble with index kinds %s is wrong (%d of the index-kind tuples fail)' % (''.join(combo), len(bad)),
+                        dict(index_kinds=''.join(combo), outcome=kind, got=got, script=script, pickled=pack(e, [args]), failing_tuples=[''.join(b[0]) for b in bad]))
+    c.obligation('stream:assemble-index-kinds', not bad, 'correspondence', '%d index-kind tuples through the in-place Assemble path, exact integer oracle' % counts['assemble-stream'])
+
+    # ---- 1. programs
+    programs = []
+    for T in (float, int, bool):
+        cat = catalogue(rng, T)
+        for n, ex in catalogue.build_errors:
+            c.failing_input('construct-raises:%s:%s' % (n, type(ex).__name__), 'constructing the catalogue program %s (%s) raises %r' % (n, T.__name__, ex), dict(program=n, dtype=T.__name__, exception=repr(ex)))
+        names = list(cat)
+        if quick and T == int:
+            names = names[c.seed % 3::3]
+        for n in names:
+            funcs, args = cat[n]
+            programs.append(Program('%s:%s' % (T.__name__, n), funcs, args, second_args(args)))
+    nrandom = 30 if quick else 700
+    for name, funcs, args, ghits in random_programs(rng, nrandom, 3 if quick else 5):
+        for k, v in ghits.items(): counts['gen:' + k] += v
+        programs.append(Program(name, funcs, args, second_args(args)))
+    core_cases = []
+    for k in range(30 if quick else 400):
+        g = CoreGen(rng)
+        shape = tuple(rng.choice([1, 2, 3]) for _ in range(rng.choice([1, 2, 2, 3])))
+        root = g.gen(shape, [], rng.choice([1, 2, 3, 4]))
+        core_cases.append((g, root))
+        if k < (6 if quick else 60):
+            programs.append(Program('core-%d' % k, root['e'], g.b.args, second_args(g.b.args)))
+    c.log('%d programs' % len(programs))
+
+    # ---- 2. all real runs
+    budget_parallel = [6 if quick else 120]
+    runs = []          # (program index, cfg, kind, val, scripts, nontrivial)
+    scripts_seen = {}
+    t0 = time.time()
+    for pi, p in enumerate(programs):
+        for cfg in choose_configs(c, has_loop(p.funcs), budget_parallel):
+            args_list = [p.args, p.args2] if cfg.cache else [p.args]
+            before = sum(hits.n.values())
+            kind, val, scripts, _ = run_config(p.funcs, args_list, cfg)
+            nontrivial = sum(hits.n.values()) > before or any('for ' in s for s in scripts)
+            runs.append((pi, cfg, kind, val, scripts, nontrivial))
+            for s in scripts:
+                script_features(s, hits.n)
+            if kind == 'ok' and scripts and len(scripts_seen) < (300 if quick else 6000) and scripts[-1] not in scripts_seen:
+                scripts_seen[scripts[-1]] = (p, cfg)
+    c.log('%d real compile+run: %.1fs' % (len(runs), time.time() - t0))
+
+    # ---- 3. V-opt pairs
+    pairs, tags = [], []
+    fired = collections.Counter()
+    for rule, node, args, must_fire in rule_instances(rng):
+        kind, res = X.guarded(lambda: node._optimized_for_numpy(), 10)
+        if kind != 'ok':
+            c.failing_input('optimize-raises:' + rule, 'the optimisation rule raises %r' % (res,), dict(rule=rule, expr=X.describe(node, args)))
+            continue
+        if res is None:
+            fired['declined:' + rule] += 1
+            if must_fire:
+                c.broken_no_input('vopt:rule-does-not-fire:' + rule, 'the minimal instance of an optimisation rule no longer triggers the rule', dict(rule=rule, expr=X.describe(node, args)))
+            continue
+        fired['fired:' + rule] += 1
+        if not must_fire:
+            counts['vopt:unexpected-fire:' + rule] += 1
+        pairs.append((node, res, args)); tags.append(('rule:' + rule, node, res, args))
+    nprog_pairs = 0
+    order = list(range(len(programs)))
+    rng.shuffle(order)
+    for pi in order:
+        p = programs[pi]
+        if nprog_pairs >= (30 if quick else 900): break
+        _, flat = flatten(p.funcs)
+        for e in flat[:2]:
+            for simp in (False, True):
+                kind, sx = X.guarded(lambda: e.simplified if simp else e, 20)
+                if kind != 'ok': continue
+                kind, o = X.guarded(lambda: apply_opt(sx), 20)
+                if kind != 'ok':
+                    if kind == 'exception':
+                        c.failing_input('optimize-raises:' + shrink.skeleton(sx), 'the optimisation pass raises %r' % (o,), dict(expr=X.describe(sx, p.args), pickled=pack(sx, [p.args])))
+                    continue
+                if o is sx:
+                    counts['vopt:unchanged'] += 1; continue
+                pairs.append((sx, o, p.args)); tags.append(('program:%s:simplified=%d' % (p.name, simp), sx, o, p.args)); nprog_pairs += 1
+    vopt_reqs, vopt_index = vopt_requests(pairs)
+
+    # ---- 4. scripts -> statement language
+    script_reqs, script_meta, flat_reqs, flat_meta = [], [], [], []
+    for script, (p, cfg) in scripts_seen.items():
+        gl = re.findall(r'\b(?:c[0-9a-f]{40}|e\d+)\b', script)
+        try:
+            req, info = translate_script(script, ['numpy', 'evaluable', 'numeric', 'parallel', 'treelog', 'collections', 'Stats', 'log_stats', 'ret_tuple', 'multiprocessing', 'warnings', 'poly', 'first_run'] + gl)
+        except Untranslatable as ex:
+            counts['xscript:untranslatable'] += 1
+            c.broken_no_input('xscript:vocabulary', 'a generated script uses a construct outside the statement language: %s' % ex, dict(program=p.name, config=cfg_name(cfg), script=script))
+            continue
+        script_reqs.append(json.dumps(req, separators=(',', ':'))); script_meta.append((script, p, cfg, info))
+        if info['loops']:
+            def tree(prefix, loops=info['loops']):
+                n = len({l for l in loops if len(l) == len(prefix) + 1 and l[:len(prefix)] == prefix})
+                return [tree(prefix + (k,)) for k in range(n)]
+            flat_reqs.append(json.dumps(dict(flat=tree(()))))
+            flat_meta.append((script, p, cfg, info['loops']))
+            if info['rerun'] and len(info.get('rerun_loops', ())) < len(info['loops']):
+                hits.n['rerun:loops-skipped'] += 1
+        if info['rerun']:
+            rr = [st for st in req['script']['prog'] if st[0] == 'rerun']
+            if rr and len(json.dumps(rr[0][3])) < len(json.dumps(rr[0][2])) - 200:
+                hits.n['rerun:blocks-skipped'] += 1
+
+    # ---- 5. M-core: real scripts of sub-language programs
+    core_reqs, core_real = [], []
+    for g, root in core_cases:
+        shared, early = g.gates(root)
+        core_reqs.append(json.dumps(dict(core=root['j'], shared=shared, early=early), separators=(',', ':')))
+        kind, val, scripts, gl = run_config(root['e'], [g.b.args], BASE)
+        tr = None
+        if kind == 'ok':
+            try:
+                tr = ('ok', script_trace(scripts[-1], gl[-1]))
+            except Exception as ex:
+                tr = ('error', repr(ex))
+        core_real.append((kind, val, scripts, tr))
+    blocksample = hits.blockof if len(hits.blockof) < 4000 else rng.sample(hits.blockof, 4000)
+    block_reqs = [json.dumps(dict(blockof=[list(map(list, deps)) for deps, _ in blocksample]))] if blocksample else []
+
+    # =============================================================== phase B: Lean (two drivers, concurrently)
+    items = []
+    for p in programs:
+        _, flat = flatten(p.funcs)
+        items.append((flat, p.args)); items.append((flat, p.args2))
+    spec_reqs, spec_pos = [], []
+    for k, (flat, args) in enumerate(items):
+        try:
+            r, _ = ser.request(flat, args)
+        except ValueError:
+            continue
+        spec_reqs.append(r); spec_pos.append(k)
+    t0 = time.time()
+    box = {}
+    def expr_job():
+        try: box['expr'] = model_parallel(c, spec_reqs + vopt_reqs, 'Expr', nproc=4)
+        except BaseException as ex: box['expr_err'] = ex
+    def c02_job():
+        try: box['c02'] = model_parallel(c, script_reqs + flat_reqs + block_reqs + core_reqs, 'C02', nproc=2)
+        except BaseException as ex: box['c02_err'] = ex
+    th = [threading.Thread(target=expr_job), threading.Thread(target=c02_job)]
+    for t in th: t.start()
+    for t in th: t.join()
+    for k in ('expr_err', 'c02_err'):
+        if k in box: raise box[k]
+    c.log('Lean: %d specification evaluations + %d optimisation pairs (driver Expr), %d scripts + %d loop trees + %d block ids + %d core programs (driver C02): %.1fs' % (
+        len(spec_reqs), len(vopt_index), len(script_reqs), len(flat_reqs), len(blocksample), len(core_reqs), time.time() - t0))
+    expr_ans, c02_ans = box['expr'], box['c02']
+    lean = [None] * len(items)
+    for k, a in zip(spec_pos, expr_ans[:len(spec_reqs)]):
+        if a.startswith('bad-request'):
+            raise Infra('Expr driver rejected a request: ' + a[:300])
+        lean[k] = json.loads(a)['results']
+    vopt_ans = expr_ans[len(spec_reqs):]
+    script_ans = c02_ans[:len(script_reqs)]
+    flat_ans = c02_ans[len(script_reqs):len(script_reqs) + len(flat_reqs)]
+    block_ans = c02_ans[len(script_reqs) + len(flat_reqs):len(script_reqs) + len(flat_reqs) + len(block_reqs)]
+    core_ans = c02_ans[len(script_reqs) + len(flat_reqs) + len(block_reqs):]
+
+    # =============================================================== phase C: verdicts
+    # ---- M-eval
+    usable = {}
+    for pi, p in enumerate(programs):
+        l1, l2 = lean[2*pi], lean[2*pi+1]
+        if l1 is None or l2 is None:
+            counts['spec:not-serialisable'] += 1; continue
+        st = spec_status(l1) if spec_status(l1) != 'ok' else spec_status(l2)
+        counts['spec:' + st] += 1
+        if st == 'illformed':
+            c.broken_no_input('corr:spec-eval', 'the Lean evaluator reports an ill-formed tree for a generated program', dict(program=p.name, expr=describe_funcs(p.funcs, p.args), lean=l1))
+        if st == 'ok':
+            usable[pi] = (l1, l2)
+    nmis = 0
+    checked = collections.Counter()
+    failed_scripts = set()
+    for pi, cfg, kind, val, scripts, nontrivial in runs:
+        if pi not in usable:
+            continue
+        p = programs[pi]
+        l1, l2 = usable[pi]
+        ll = [l1, l2] if cfg.cache else [l1]
+        args_list = [p.args, p.args2] if cfg.cache else [p.args]
+        key = tuple(e.__nutils_hash__ for e in flatten(p.funcs)[1])
+        c.case((key, cfg), nontrivial=nontrivial)
+        checked[cfg_name(cfg)] += 1
+        verdict, detail = compare_run(p.funcs, kind, val, ll)
+        counts['meval:' + verdict] += 1
+        if verdict == 'ok':
+            c.traces += 1
+            if len(c.samples) < 3 and p.name.startswith('random') and nontrivial and scripts:
+                c.sample(dict(program=p.name, config=cfg_name(cfg), structure=repr(flatten(p.funcs)[0]), script=scripts[-1][:1500]))
+            continue
+        failed_scripts.update(scripts)
+        v2, d2, _ = evaluate_program(p.funcs, args_list, cfg, ll)     # candidate: must reproduce
+        if v2 == 'ok':
+            counts['meval:not-reproducible'] += 1
+            c.broken_no_input('meval:flaky', 'a mismatch did not reproduce', dict(program=p.name, config=cfg_name(cfg), detail=detail))
+            continue
+        nmis += 1
+        if nmis > (5 if quick else 25):
+            continue
+        sig, small, sargs, failing = signature_for(c, p.name, p.funcs, args_list, cfg, verdict, detail, ll)
+        c.failing_input(sig, 'compiled function (%s) %s: %s' % (cfg_name(cfg), 'returns a value that differs from what the expression denotes' if verdict == 'mismatch' else 'raises', detail),
+                        dict(program=p.name, config=cfg_name(cfg), failing_config=cfg_name(failing), detail=detail, minimal=describe_funcs(small, sargs),
+                             original=describe_funcs(p.funcs, p.args), pickled=pack(small, [sargs]), script=(scripts[-1] if scripts else None)))
+    c.extra['configurations_checked'] = dict(checked)
+    c.extra['mismatching_program_configurations'] = nmis
+    c.obligation('oracle:compiled-equals-denotation', nmis == 0 and counts['meval:ok'] > 0, 'validation',
+                 '%d (program, configuration) pairs agree with the Lean specification evaluator' % counts['meval:ok'])
+
+    # ---- V-opt
+    nsym = nconc = 0
+    for k, a1, a2 in zip(vopt_index, vopt_ans[0::2], vopt_ans[1::2]):
+        tag, e, o, args = tags[k]
+        if a1.startswith('bad-request') or a2.startswith('bad-request'):
+            raise Infra('Expr driver rejected a V-opt request: ' + (a1 if a1.startswith('bad') else a2)[:300])
+        a1, a2 = json.loads(a1), json.loads(a2)
+        meta_ok = o.dtype == e.dtype and o.ndim == e.ndim
+        c.case(('vopt', e.__nutils_hash__, o.__nutils_hash__))
+        if a2['cmp'] == ['same'] and meta_ok:
+            nsym += 1; counts['vopt:proved-symbolically'] += 1
+        elif a1['cmp'] == ['same'] and meta_ok:
+            nconc += 1; counts['vopt:equal-at-sample-point'] += 1
+        else:
+            st = spec_status(a1['results'])
+            if st in ('undefined', 'unsupported'):
+                counts['vopt:' + st] += 1; continue
+            # candidate: confirm on the real code (both trees evaluated without further rewriting)
+            k1, v1 = X.real_eval(e, args); k2, v2 = X.real_eval(o, args)
+            if not meta_ok or (k1 == 'ok' and (k2 in ('exception', 'hang') or (k2 == 'ok' and not X.arrays_close(v1, v2)))):
+                rule = tag.split(':', 1)[1] if tag.startswith('rule:') else None
+                sig = 'optimize-wrong-value:' + (rule if rule else shrink.skeleton(o))
+                c.failing_input(sig, 'the numpy-optimised expression differs from the expression it replaces', dict(tag=tag, expr=X.describe(e, args), optimised=X.describe(o, args)['tree'],
+                                real_original=(v1.tolist() if k1 == 'ok' else repr(v1)), real_optimised=(v2.tolist() if k2 == 'ok' else repr(v2)), lean=a1, pickled=pack((e, o), [args])))
+            else:
+                counts['vopt:lean-cannot-decide'] += 1
+    c.extra['optimisation_rules'] = dict(fired)
+    c.extra['vopt_proved_symbolically_for_all_real_arguments'] = nsym
+    c.extra['vopt_decided_at_sample_point_only'] = nconc
+    c.obligation('valid:optimised-equals-original', not any(v[2].startswith('optimize-') for v in c.violations) and nsym + nconc > 0, 'validation', '%d symbolic + %d at sample point' % (nsym, nconc))
+
+    # ---- X-script
+    nacc = 0
+    for a, (script, p, cfg, info) in zip(script_ans, script_meta):
+        if a.startswith('bad-request'):
+            raise Infra('C02 driver rejected a script: ' + a[:300])
+        a = json.loads(a)
+        c.case(('xscript', script))
+        if a['ok']:
+            nacc += 1
+        else:
+            counts['xscript:rejected:' + a['kind']] += 1
+            c.broken_no_input('xscript:' + a['kind'], 'a generated script is not well-formed (%s of %s) although its value agreed with the specification on the inputs tried' % (a['kind'], a['var']),
+                              dict(program=p.name, config=cfg_name(cfg), verdict=a, script=script))
+    c.obligation('static:scripts-well-formed', nacc == len(script_reqs) and nacc > 0, 'validation', '%d scripts accepted by the checker of Props/C02.initialised_before_use_sound' % nacc)
+    okflat = True
+    for a, (script, p, cfg, loops) in zip(flat_ans, flat_meta):
+        ids = json.loads(a)['ids']
+        order = [tuple(i[:-1]) for i in ids if len(i) >= 2 and i[-1] == 0]
+        if order != list(loops):
+            okflat = False
+            c.broken_no_input('corr:block-order', 'loops appear in the script in an order different from the lexicographic order of block ids', dict(program=p.name, config=cfg_name(cfg), loops=loops, model=order, script=script))
+    c.obligation('corr:block-order', okflat and len(flat_reqs) > 0, 'correspondence', '%d scripts: loop order equals the model\'s rendering of the block tree' % len(flat_reqs))
+    if block_ans:
+        res = json.loads(block_ans[0])['blocks']
+        badk = [k for k, ((deps, bid), (b, scope)) in enumerate(zip(blocksample, res)) if tuple(b) != tuple(bid) or not scope]
+        if badk:
+            k = badk[0]
+            c.broken_no_input('corr:get_block_id', 'get_block_id differs from max of the dependencies\' block ids', dict(deps=blocksample[k][0], real=blocksample[k][1], model=res[k]))
+        c.obligation('corr:get_block_id', not badk, 'correspondence', '%d block id computations equal blockOf and satisfy scopeOK' % len(blocksample))
+
+    # ---- M-core
+    nok = 0
+    for (g, root), a, (kind, val, scripts, tr) in zip(core_cases, core_ans, core_real):
+        if a.startswith('bad-request'):
+            raise Infra('C02 driver rejected a core request: ' + a[:200])
+        a = json.loads(a)
+        c.case(('core', json.dumps(root['j'])))
+        if kind != 'ok':
+            c.failing_input('compile-raises:base:' + shrink.skeleton(root['e']), 'compile of a sub-language program raises %r' % (val,), dict(expr=X.describe(root['e'], g.b.args), pickled=pack(root['e'], [g.b.args])))
+            continue
+        if tr[0] != 'ok':
+            c.broken_no_input('corr:compileCore', 'cannot read the accumulator trace of a generated script: %s' % tr[1], dict(script=scripts[-1]))
+            continue
+        mt = model_trace(a['stmts'], a['result'], g)
+        if mt == tr[1]:
+            nok += 1
+        else:
+            counts['core:trace-differs'] += 1
+            # search for a failing input first: does the value differ from the specification?
+            res = lean_eval(c, [([root['e']], g.b.args)])[0] if counts['core:trace-differs'] <= 3 else None
+            if res is not None and spec_status(res) == 'ok' and compare_with_spec(root['e'], res, val[0]):
+                c.failing_input('compile-wrong-value:base:' + shrink.skeleton(root['e']), 'compiled sub-language program differs from its denotation', dict(expr=X.describe(root['e'], g.b.args), pickled=pack(root['e'], [g.b.args]), script=scripts[-1]))
+            else:
+                c.broken_no_input('corr:compileCore', 'the real script accumulates differently from the verified model compileCore (gate / mode / zero-fill placement)',
+                                  dict(expr=root['j'], model=repr(mt), script_trace=repr(tr[1]), script=scripts[-1], pickled=pack(root['e'], [g.b.args])))
+    c.obligation('corr:compileCore', nok == len(core_cases), 'correspondence', '%d of %d sub-language programs: accumulator traces of the real script equal those of compileCore' % (nok, len(core_cases)))
+
+    # ---- evidence
+    table = {k: hits.n.get(k, 0) for k in EXPECTED_BRANCHES}
+    c.extra['branch_hits'] = table
+    c.extra['branches_never_hit'] = [k for k, v in table.items() if not v]
+    c.extra['other_hits'] = {k: v for k, v in hits.n.items() if k not in table}
+    for k, v in counts.items(): c.count(k, v)
+    for b in broken:
+        c.broken_no_input('proof', b, dict(detail=b))
